@@ -68,7 +68,7 @@ theorem new_stride_dvd (b s : Nat) (l u : Int) : (SI.new b s l u).stride = 0 ∨
 member of the interval is a member of some piece (and conversely) -/
 theorem ssplit_spec (s : SI) (hw : s.WF) (hnb : s.bottom = false) :
     ∃ ps, s.ssplit = .ok ps ∧
-      (∀ p, p ∈ ps → WFw s.bits p ∧ p.bottom = false ∧ p.lb ≤ p.ub) ∧
+      (∀ p, p ∈ ps → WFw s.bits p ∧ p.bottom = false ∧ p.lb ≤ p.ub ∧ (p.stride = 0 ∨ p.stride = s.stride)) ∧
       (∀ x, s.mem x → ∃ p, p ∈ ps ∧ p.mem x) ∧
       (∀ p, p ∈ ps → ∀ x, p.mem x → s.mem x) := by
   have hm : 0 < 2 ^ s.bits := two_pow_pos' s.bits
@@ -102,7 +102,7 @@ theorem ssplit_spec (s : SI) (hw : s.WF) (hnb : s.bottom = false) :
       · intro p hp
         have : p = SI.new s.bits s.stride (s.lb : Int) ((s.lb + K : Nat) : Int) := by simpa using hp
         subst this
-        exact ⟨hAwf, new_bottom _ _ _ _, new_nowrap _ _ _ _ hl hlk (by omega)⟩
+        exact ⟨hAwf, new_bottom _ _ _ _, new_nowrap _ _ _ _ hl hlk (by omega), new_stride_dvd _ _ _ _⟩
       · intro x hx
         obtain ⟨_, hxl, hx1, hx2⟩ := mem_facts s x ⟨h0, hl, hu, hst⟩ hx
         refine ⟨_, List.mem_cons_self, hAmem x hxl ?_ hx2⟩
@@ -134,10 +134,10 @@ theorem ssplit_spec (s : SI) (hw : s.WF) (hnb : s.bottom = false) :
       · intro p hp
         rcases List.mem_cons.1 hp with h | h
         · subst h
-          exact ⟨hAwf, new_bottom _ _ _ _, new_nowrap _ _ _ _ hl hlk (by omega)⟩
+          exact ⟨hAwf, new_bottom _ _ _ _, new_nowrap _ _ _ _ hl hlk (by omega), new_stride_dvd _ _ _ _⟩
         · have : p = SI.new s.bits s.stride ((s.lb + K + s.stride - 2 ^ s.bits : Nat) : Int) (s.ub : Int) := by simpa using h
           subst this
-          exact ⟨hBwf, new_bottom _ _ _ _, new_nowrap _ _ _ _ hbLlt hu (by omega)⟩
+          exact ⟨hBwf, new_bottom _ _ _ _, new_nowrap _ _ _ _ hbLlt hu (by omega), new_stride_dvd _ _ _ _⟩
       · intro x hx
         obtain ⟨_, hxl, hx1, hx2⟩ := mem_facts s x ⟨h0, hl, hu, hst⟩ hx
         by_cases hle : cd (2 ^ s.bits) s.lb x ≤ K
@@ -174,8 +174,10 @@ theorem ssplit_spec (s : SI) (hw : s.WF) (hnb : s.bottom = false) :
           have e1 : cd (2 ^ s.bits) s.lb x = cd (2 ^ s.bits) (s.lb + K + s.stride - 2 ^ s.bits) x + (K + s.stride) := by
             rw [e2] at h1
             unfold cd at h1 ⊢; split_ifs at h1 ⊢ <;> omega
+          have h1' : cd (2 ^ s.bits) (s.lb + K + s.stride - 2 ^ s.bits) x ≤ cd (2 ^ s.bits) s.lb s.ub - (K + s.stride) := by
+            rw [← e2]; exact h1
           rw [mem_iff _ _ hl hu]
-          refine ⟨hnb, hxl, by rw [e1, e2] at *; omega, ?_⟩
+          refine ⟨hnb, hxl, by rw [e1]; omega, ?_⟩
           rw [if_neg hsne, e1]
           exact Nat.mod_eq_zero_of_dvd (Nat.dvd_add (Nat.dvd_of_mod_eq_zero h2) (Nat.dvd_add hK1 (Nat.dvd_refl _)))
   · -- not wrapping: the piece is a copy
@@ -184,11 +186,14 @@ theorem ssplit_spec (s : SI) (hw : s.WF) (hnb : s.bottom = false) :
     · intro p hp
       have : p = s.renorm := by simpa using hp
       subst this
-      refine ⟨renorm_WFw _ s ⟨hw, rfl⟩, ?_, ?_⟩
+      refine ⟨renorm_WFw _ s ⟨hw, rfl⟩, ?_, ?_, ?_⟩
       · unfold SI.renorm; rw [hnb]; simp
       · unfold SI.renorm; rw [hnb]
         simp only [Bool.false_eq_true, if_false]
         exact new_nowrap _ _ _ _ hw.2.1 hw.2.2.1 (by omega)
+      · unfold SI.renorm; rw [hnb]
+        simp only [Bool.false_eq_true, if_false]
+        exact new_stride_dvd _ _ _ _
     · intro x hx
       exact ⟨_, List.mem_cons_self, (renorm_mem s hw x).2 hx⟩
     · intro p hp x hx
